@@ -292,13 +292,13 @@ theorem parse_build_req (cfg : Cfg) (ua m u v : Bytes) (ct : Option Bytes) (hs :
       ReqResult r m v url (reqHeaders ua ct hs body cc noUa) (if bodyTruthy body then body else none) false := by
   simp only [WFReq, Bool.and_eq_true] at hwf
   obtain ⟨⟨⟨⟨⟨⟨hm, hu⟩, hv⟩, hh⟩, hnf⟩, hct⟩, hua⟩ := hwf
-  obtain ⟨-, hmsp, hmcr⟩ := plainTok_spec hm
+  obtain ⟨hmne, hmsp, hmcr⟩ := plainTok_spec hm
   obtain ⟨-, husp, hucr⟩ := plainTok_spec hu
   obtain ⟨-, -, hvcr⟩ := plainTok_spec hv
   have hl := line3_noCRLF hmcr hucr hvcr
   have hH := reqHeaders_hdrOK (body := body) (cc := cc) (noUa := noUa) hh hct hua
   rw [buildRequest_eq]
-  have hparse := parse_request_pkt cfg (reqHeaders ua ct hs body cc noUa) (body.getD []) hmsp husp hl hurl hH _ rfl
+  have hparse := parse_request_pkt cfg (reqHeaders ua ct hs body cc noUa) (body.getD []) hmne hmsp husp hl hurl hH _ rfl
   have hfresh := freshLine_req cfg
     (m ++ SP :: (u ++ SP :: v) ++ CRLF ++ (renderHdrs (reqHeaders ua ct hs body cc noUa) ++ CRLF ++ body.getD [])).length m v url
   by_cases hb : bodyTruthy body = true
@@ -388,7 +388,7 @@ theorem parse_build_req_chunked (cfg : Cfg) (ua m u v : Bytes) (ct : Option Byte
       ReqResult r m v url (reqHeaders ua ct hs (some s.render) cc noUa) (some s.decoded) true := by
   simp only [WFReqChunked, Bool.and_eq_true] at hwf
   obtain ⟨⟨⟨⟨⟨⟨hm, hu⟩, hv'⟩, hh⟩, hch⟩, hct⟩, hua⟩ := hwf
-  obtain ⟨-, hmsp, hmcr⟩ := plainTok_spec hm
+  obtain ⟨hmne, hmsp, hmcr⟩ := plainTok_spec hm
   obtain ⟨-, husp, hucr⟩ := plainTok_spec hu
   obtain ⟨-, -, hvcr⟩ := plainTok_spec hv'
   have hl := line3_noCRLF hmcr hucr hvcr
@@ -396,7 +396,7 @@ theorem parse_build_req_chunked (cfg : Cfg) (ua m u v : Bytes) (ct : Option Byte
   obtain ⟨⟨t, ht, htc⟩, -⟩ := chunkedHdrs_spec hch
   rw [buildRequest_eq]
   have hparse := parse_request_pkt cfg (reqHeaders ua ct hs (some s.render) cc noUa) ((some s.render).getD [])
-    hmsp husp hl hurl hH _ rfl
+    hmne hmsp husp hl hurl hH _ rfl
   have hfresh := freshLine_req cfg
     (m ++ SP :: (u ++ SP :: v) ++ CRLF ++
       (renderHdrs (reqHeaders ua ct hs (some s.render) cc noUa) ++ CRLF ++ (some s.render).getD [])).length m v url
